@@ -497,20 +497,56 @@ func TestVerifC10LongHistory(t *testing.T) {
 			ops = append(ops, c10Op{Op: "set", K: key, V: key, D: int64(cycles+50+r.Intn(slots*3)) * 1000})
 		}
 		var recent []int
+		due := map[int]int{} // generator-side due tick of the short-lived keys (cycle i starts at tick i)
 		for i := 0; i < cycles; i++ {
 			key++
-			ops = append(ops, c10Op{Op: "set", K: key, V: key, D: int64(1+r.Intn(slots+3)) * 1000})
+			d := 1 + r.Intn(slots+3)
+			ops = append(ops, c10Op{Op: "set", K: key, V: key, D: int64(d) * 1000})
+			due[key] = i + d
+			delete(due, key-40)
+			// every key still pending two cycles after it was set is re-scheduled once: whatever
+			// the index lost in a migration during the last two cycles is touched right after it
+			if old := key - 2; due[old] > i {
+				nd := 1 + r.Intn(2*slots)
+				ops = append(ops, c10Op{Op: "move", K: old, D: int64(nd) * 1000})
+				due[old] = i + nd
+			}
 			recent = append(recent, key)
 			if len(recent) > 8 {
 				recent = recent[1:]
 			}
-			switch r.Intn(10) {
-			case 0:
-				ops = append(ops, c10Op{Op: "move", K: recent[r.Intn(len(recent))], D: int64(1+r.Intn(2*slots)) * 1000})
-			case 1:
-				ops = append(ops, c10Op{Op: "remove", K: recent[r.Intn(len(recent))]})
+			// frequent re-schedules / removals of recently set keys: an entry the index lost
+			// in a migration is one of these, and the lost entry shows as a fire the model
+			// does not expect (RemoveTimer / MoveTimer silently found nothing)
+			switch x := r.Intn(10); {
+			case x < 3:
+				k, nd := recent[r.Intn(len(recent))], 1+r.Intn(2*slots)
+				ops = append(ops, c10Op{Op: "move", K: k, D: int64(nd) * 1000})
+				if due[k] > i {
+					due[k] = i + nd
+				}
+			case x < 5:
+				k := recent[r.Intn(len(recent))]
+				ops = append(ops, c10Op{Op: "remove", K: k})
+				delete(due, k)
 			}
 			ops = append(ops, c10Op{Op: "tick"})
+		}
+		// the long-lived entries went through the index migrations: each must still be
+		// found by RemoveTimer / MoveTimer / re-SetTimer (a third each, the rest left alone)
+		for i := 0; i < resident; i++ {
+			k := 1001 + i
+			switch i % 4 {
+			case 0:
+				ops = append(ops, c10Op{Op: "remove", K: k})
+			case 1:
+				ops = append(ops, c10Op{Op: "move", K: k, D: int64(1+r.Intn(3*slots)) * 1000})
+			case 2:
+				ops = append(ops, c10Op{Op: "set", K: k, V: -k, D: int64(1+r.Intn(3*slots)) * 1000})
+			}
+			if i%97 == 0 {
+				ops = append(ops, c10Op{Op: "tick"})
+			}
 		}
 		for j := 0; j < 4*slots+60; j++ {
 			ops = append(ops, c10Op{Op: "tick"})
